@@ -81,6 +81,23 @@ def run(W, chk):
     window_and_keys(W, chk, A)
 
 
+def carried_snapshot(chk, e, m):
+    """the F3 rule: the snapshot re-written at the claimed epoch is the one in effect there"""
+    dep = dep_origins(e.extra.get("value", EMPTY))
+    need = set(m) & {"msg.Claim.until_epoch"}
+    kt = e.extra.get("value", EMPTY).fields.get("#may:key")
+    sel = {o for (o, ops) in kt.atoms} if kt is not None else set()
+    stray = sorted(o for o in sel if o.startswith("Store(LP_WEIGHT_HISTORY)"))
+    chk.expect(not stray, "DEP-carried-snapshot", "Claim: snapshot selected by the claimed epoch only",
+               "the snapshot carried to until_epoch is selected by (user, lp denom, until_epoch) alone",
+               "the snapshot re-written at until_epoch is selected with a bound taken from the history itself (%s): an entry that "
+               "takes effect after until_epoch can be moved back to it" % stray, where(e))
+    chk.expect(bool(need) and need <= dep, "DEP-carried-snapshot", "Claim: snapshot re-written at until_epoch",
+               "the weight re-written at the claimed epoch depends on that epoch (it is the snapshot in effect there)",
+               "value saved at key epoch %s does not depend on it (depends on %s): a snapshot taking effect later is moved back to "
+               "until_epoch and earlier epochs are paid with it" % (sorted(m), sorted(o for o in dep if not o.startswith("Const("))[:8]), where(e))
+
+
 def window_and_keys(W, chk, A):
     # ---- window cuts
     ge_last = PredTrue("until >= last_claimed", rel(r"^(Query\(CurrentEpoch\)\.id|msg\.Claim\.until_epoch)$", ">=", r"^Store\(LAST_CLAIMED_EPOCH\)$"))
@@ -107,12 +124,7 @@ def window_and_keys(W, chk, A):
                        "snapshot key epoch is current+1" if nxt else "snapshot key epoch is the validated until_epoch",
                        "weight snapshot written at epoch %s" % {k: sorted(v) for k, v in m.items()}, where(e))
             if bounded:
-                dep = dep_origins(e.extra.get("value", EMPTY))
-                need = set(m) & {"msg.Claim.until_epoch"}
-                chk.expect(bool(need) and need <= dep, "DEP-carried-snapshot", "Claim: snapshot re-written at until_epoch",
-                           "the weight re-written at the claimed epoch depends on that epoch (it is the snapshot in effect there)",
-                           "value saved at key epoch %s does not depend on it (depends on %s): a snapshot taking effect later is moved back to "
-                           "until_epoch and earlier epochs are paid with it" % (sorted(m), sorted(o for o in dep if not o.startswith("Const("))[:8]), where(e))
+                carried_snapshot(chk, e, m)
     chk.expect(n >= 5, "PROV-weight-key", "anchor-count", "%d snapshot writers analysed" % n, "only %d LP_WEIGHT_HISTORY writers found" % n, "")
 
     # ---- budget guards compare the updated claimed amount
